@@ -35,7 +35,7 @@ def render_file(f):
             alts.append(f"'r{k}' r{k}=[{qns}.{qname}]")
         else:
             alts.append(f"'q{k}' q{k}={qns}.{qname}")
-    alts.append("'nil'")
+    alts.append("z?='nil'")   # keeps the probe rule a common rule (it always has an attribute)
     out.append(f"{p}: '{p.lower()}' ( " + " | ".join(alts) + " );")
     for n in f["rules"][1:]:
         out.append(f"{n}: '{leaf_kw(f['ns'], n)}' x=INT;")
@@ -67,7 +67,7 @@ def _path_tokens(case, i):
 
 def _objects(model):
     from textx import get_children
-    return [model] + list(get_children(lambda x: True, model))
+    return list(get_children(lambda x: True, model))   # the root object comes first
 
 
 def observe(case, root):
